@@ -118,6 +118,45 @@ def extract(tree):
     return c, {k: ty[k] for k in want}
 
 
+def abstract_hooks(tree):
+    """every `JanetAbstractType` initialiser of src/core whose compare or hash slot is not NULL: [(file, name, compare, hash)]"""
+    import os
+    out = []
+    d = os.path.join(tree, "src/core")
+    for fn in sorted(os.listdir(d)):
+        if not fn.endswith(".c"):
+            continue
+        src = csrc.strip_comments(csrc.read(tree, "src/core/" + fn))
+        for m in re.finditer(r"const\s+JanetAbstractType\s+(\w+)\s*=\s*\{", src):
+            i = src.index("{", m.start())
+            body = src[i + 1:csrc.match_brace(src, i) - 1]
+            items, depth, cur = [], 0, ""
+            for ch in body:
+                if ch in "({":
+                    depth += 1
+                elif ch in ")}":
+                    depth -= 1
+                if ch == "," and depth == 0:
+                    items.append(cur.strip())
+                    cur = ""
+                else:
+                    cur += ch
+            if cur.strip():
+                items.append(cur.strip())
+            # name gc gcmark get put marshal unmarshal tostring compare hash next call length bytes; JANET_ATEND_* fills the rest with NULL
+            cmpf = items[8] if len(items) > 8 and not items[8].startswith("JANET_ATEND") else "NULL"
+            hashf = items[9] if len(items) > 9 and not items[9].startswith("JANET_ATEND") else "NULL"
+            if any(it.startswith("JANET_ATEND") for it in items[:9]):
+                k = next(j for j, it in enumerate(items) if it.startswith("JANET_ATEND"))
+                if k <= 8:
+                    cmpf = "NULL"
+                if k <= 9:
+                    hashf = "NULL"
+            if cmpf != "NULL" or hashf != "NULL":
+                out.append((fn, items[0].strip('"'), cmpf, hashf))
+    return out
+
+
 def render(tree):
     c, ty = extract(tree)
     out = [csrc.lean_header("src/core/value.c, util.c, struct.c, include/janet.h"), "namespace JanetModel.Gen.Value\n"]
